@@ -156,4 +156,35 @@ theorem report_writers :
     ((Gen.Cmds.mainFlow.filter (fun e => e.1 == "stdout")).drop 2).map (fun e => e.2.2.map (·.2)) = [["t"], ["e"]] := by
   decide
 
+/-! ## every error value of the scan driver is consulted, REGENERATED (sizes/graph.go)
+
+`Gen.Cmds.scanFlow` lists every statement of `ScanRepositoryUsingGraph` (the two feeder goroutines
+included). Each statement that assigns `err` — opening a pipeline, `Next()` on either iterator,
+`AddRoot` / `RequestObject` in the feeders, `ParseTree/Commit/Tag`, `RegisterTree`, `<-errChan` — is
+IMMEDIATELY followed by `if err != nil` whose branch begins by returning an error. -/
+
+def errChecked : List Ev → Bool
+  | [] => true
+  | e :: rest =>
+    (if e.1 == "assign-err" then
+      match rest with
+      | i :: r :: _ => i.1 == "if" && i.2.1 == "err != nil" && r.1 == "return-err" &&
+          r.2.2.dropLast == i.2.2.dropLast && (r.2.2.getLast?.map (·.2)) == some "t"
+      | _ => false
+    else true) && errChecked rest
+
+/-- **no error of the scan is dropped** -/
+theorem scan_errors_consulted :
+    errChecked Gen.Cmds.scanFlow = true ∧ (Gen.Cmds.scanFlow.filter (fun e => e.1 == "assign-err")).length = 17 := by
+  constructor <;> decide +kernel
+
+/-- the scan function returns a result only at its very end (every other return is an error return),
+    and that result is `graph.HistorySize()` — whose own check panics when a tree or tag record remains -/
+theorem scan_returns_once :
+    (Gen.Cmds.scanFlow.filter (fun e => e.1 == "return" && !(e.2.2.any (fun c => c.2 == "go")))).map (fun e => (e.2.1, e.2.2)) =
+      [("graph.HistorySize(), nil", [])] ∧
+    (Gen.Cmds.scanFlow.getLast?).map (fun e => e.1) = some "return" := by
+  constructor <;> decide +kernel
+
+
 end GitSizer.C10
